@@ -20,7 +20,9 @@ LEVEL_TEXT = ("(a) For every link destination up to the length bound over an alp
               "attribute equals the source destination (refuri for anchors and known schemes, refname otherwise) and whose text is rendered once; image URI/alt, ordered-list start (any integer) and "
               "suffix, code language are proved to be carried unchanged. (b) For every document of the bounded block/inline grammar, in strict CommonMark and MyST mode, the sequence of leaves "
               "(text, inline code, code blocks, raw HTML, thematic breaks, images) of the doctree equals that of markdown-it's syntax tree, each under the corresponding chain of containers, and the "
-              "docutils and Sphinx renderers agree on everything that is not a link.")
+              "docutils and Sphinx renderers agree on everything that is not a link. (c) Pipe tables with every alignment x empty/plain/emphasised cells; code blocks in 6 styles x 7 languages x 11 texts "
+              "(verbatim text, language kept); MyST extension syntax (math, definition/field/task lists, strikethrough, span and block attributes) leaf by leaf; the Sphinx renderer's pending_xref carries "
+              "a non-URL destination unchanged.")
 LEVEL_NOTE = ("Reduced scope (see DESIGN): the tokenizer is trusted; math, definition/field lists and GFM mode (needs linkify-it-py, not importable here) are outside; verbatim code through pygments "
               "highlighting is checked only via the literal_block text.")
 BUDGET_S = {"quick": 240, "thorough": 1500}
